@@ -49,7 +49,7 @@ Value& TANExpression::value(Context & ctx) const
     break;
   case Type::INTEGER:
     if (val.isNull())
-      return val;
+      break;
     v = Value(Numeric(std::tan(*val.integer())));
     break;
   case Type::NUMERIC:
